@@ -31,13 +31,14 @@
 #define W17_OWN_H
 
 #ifndef W17_NB
-#define W17_NB 10		/* capacity of the ghost table */
+#define W17_NB 12		/* capacity of the ghost table */
 #endif
 
 static sqfs_block_t *g_tab[W17_NB];
 static bool g_tab_freed[W17_NB];
 static bool g_tab_pool[W17_NB];		/* owner: the pool */
 static bool g_tab_caller[W17_NB];	/* owner: the caller of the front end */
+static bool g_tab_orphan[W17_NB];	/* reported by C13.bp.no_orphan */
 static unsigned g_tab_n;
 static bool g_tab_overflow;
 
@@ -149,7 +150,8 @@ static bool w17_at_least_one(void)
 	unsigned i;
 
 	for (i = 0; i < W17_NB; ++i) {
-		if (i < g_tab_n && !g_tab_freed[i] && g_cnt[i] == 0)
+		g_tab_orphan[i] = (i < g_tab_n && !g_tab_freed[i] && g_cnt[i] == 0);
+		if (g_tab_orphan[i])
 			ok = false;
 	}
 	return ok;
@@ -375,6 +377,7 @@ static void w17_env_init(void)
 	for (i = 0; i < W17_NB; ++i) {
 		g_tab[i] = NULL;
 		g_tab_freed[i] = g_tab_pool[i] = g_tab_caller[i] = false;
+		g_tab_orphan[i] = false;
 		g_poolq[i] = NULL;
 		g_cnt[i] = 0;
 	}
